@@ -238,7 +238,37 @@ def F21_antimeridian_box():
     return None if got == [1, 2] and ge == [(1, 2), (2, 1)] else f"nodes_closeto((10, 179.9999), 50 m) = {got} (expected [1, 2]); edges_closeto((10, -179.9999), 50 m) = {ge}"
 
 
-ALL = [F21_antimeridian_box, F20_debug_placeholder_order_in_ne_layer, F15_latlon_triples_node_mode, F1_hashseed, F2_long_edge, F3_latlon_box, F6c_latlon_inf, F4_sqlite_bb, F5a_parallel, F6a_obs_on_road,
+def F26_stale_early_stop_on_a_reused_matcher():
+    """C19 (and matcher reuse): match() returned ([], 0) for a trace without start candidates BEFORE it reset early_stop_idx, so a
+    matcher used for an earlier trace kept that trace's early-stop index (at DEBUG the placeholders made it 0): best_last_matches()
+    raised KeyError at the default level and returned nothing at DEBUG."""
+    from leuvenmapmatching.map.inmem import InMemMap
+    from leuvenmapmatching.matcher.simple import SimpleMatcher
+    g = {"0": ((0.5, 1), ["3", "1"]), "1": ((1, 3), ["0", "2"]), "2": ((2.5, 0), ["1", "3"]), "3": ((0, 0.5), ["0", "2"])}
+    lg = logging.getLogger("be.kuleuven.cs.dtai.mapmatching")
+    out = []
+    for level in (logging.ERROR, logging.DEBUG):
+        old = lg.level
+        h = logging.NullHandler()
+        lg.addHandler(h)
+        lg.setLevel(level)
+        try:
+            mt = SimpleMatcher(InMemMap('m', use_latlon=False, use_rtree=False, graph=g), obs_noise=0.5, max_dist=1.5, max_dist_init=2,
+                               max_lattice_width=1, only_edges=False, non_emitting_states=False)
+            mt.match([(0.5, 0.25), (0.75, 0.25), (2.5, 0.25), (1.25, 2.5), (1.75, 1.25)])      # stops early at observation 3
+            r = mt.match([(3.75, 1.5), (2, 1.5)])                                                # no start candidate
+            try:
+                b = dict(mt.best_last_matches(k=1, nb_obs=2))
+            except Exception as e:
+                b = f"raised {type(e).__name__}"
+            out.append((r, mt.early_stop_idx in (None, 0), b))
+        finally:
+            lg.setLevel(old)
+            lg.removeHandler(h)
+    return None if out[0] == out[1] and out[0][1] else f"ERROR level -> {out[0]}, DEBUG level -> {out[1]} (second field: early_stop_idx is None or 0)"
+
+
+ALL = [F26_stale_early_stop_on_a_reused_matcher, F21_antimeridian_box, F20_debug_placeholder_order_in_ne_layer, F15_latlon_triples_node_mode, F1_hashseed, F2_long_edge, F3_latlon_box, F6c_latlon_inf, F4_sqlite_bb, F5a_parallel, F6a_obs_on_road,
        F6b_triples_planar_ne, F7_sqlite_reopen_flag, F8_debug_changes_result, F12_sqlite_float32]
 
 if __name__ == '__main__':
